@@ -29,6 +29,9 @@ def dispatch (family : String) (params lines : List String) : CaseResult :=
   | "c03" => C03.checkEng params lines
   | "c04cond" => C04.checkCond params lines
   | "c04" => C04.checkEng params lines
+  | "c05" => C04.checkEng params lines
+  | "c05n" => C01.check params lines
+  | "c12" => C01.check params lines
   | "c20" => C20.check params lines
   | "c16" => C16.check params lines
   | _ => { bad := [s!"unknown family {family}"] }
